@@ -17,8 +17,8 @@ from . import c02
 
 LEVEL = "exploration"
 LEVEL_TEXT = ("Generated validated requests (queries and mutations with fragments, merged fields, abstract types, lists, injected data faults) are executed "
-              "by the real async executor on a controlled asyncio loop: a seeded scheduler decides which resolver results, list items, list iterators and "
-              "type-resolver results are awaitable and in which order they complete (random / FIFO / LIFO policies, all permutations when few). Every run's data "
+              "by the real async executor on a controlled asyncio loop: a seeded scheduler decides which resolver results, list items (coroutines or already settled futures), list iterators, "
+              "type-resolver and is_type_of results (incl. values matching two possible types) are awaitable and in which order they complete (random / FIFO / LIFO policies, all permutations when few). Every run's data "
               "is compared with the fully synchronous run; errors are checked for well-formedness against the data; a trace monitor checks that a top-level "
               "mutation field starts only after the previous one's whole subtree completed; the sub-selection memo monitor of C02 stays installed.")
 LEVEL_NOTE = ("trusted: the controlled loop (vf/mon/loop.py; overrides asyncio's private _run_once on the pinned interpreter, self-tested at start-up); interleavings are "
